@@ -7,6 +7,7 @@ all 2 x 5 combinations of --arrays {position,value} x --aoh
 given); the two synchronisers are called directly; print_report gives the exit
 state.  Observations per case (one line each, same order as the requests):
   10 x (diff cfg lhs rhs)  ->  (ok i<exit> (<sorted entries>)) | (raise ...)
+  (valeq lhs rhs) + (valeq l r) for the facing children: Differ._same_data
   (syncval lhs rhs), (synckey cfg lhs rhs)  when both roots are sequences
   (report ...) for the print_report selection
 An entry is (action, path as PARSED SEGMENTS, lhs data, rhs data); entries are
@@ -29,8 +30,9 @@ CONFIG = {
              "random documents (depth <= 4, nulls, empty containers, duplicates, Array-of-Hashes with and without the "
              "identity key, sets, floats/bools/dates) paired as identical (two loads / one object), derived by random "
              "insert-delete-replace-reorder-retype edits, or unrelated; (iii) separate streams for the known-finding "
-             "domains (tagged scalars / tagged containers, re-ordered record keys, odd mapping keys, null facing a "
-             "container, records without identity key) and for per-path rules / identity keys from a configuration; "
+             "domains and the repaired ones (tagged scalars / tagged mappings and sequences, re-ordered record keys, odd "
+             "mapping keys, null facing a container at the root and below it, records without identity key) and for "
+             "per-path rules / identity keys from a configuration; "
              "every case under all 10 (--arrays x --aoh) combinations.  non-trivial = the two documents are not both "
              "scalars; distinct = distinct (lhs text, rhs text, config) (hash set)."),
     "trusted_base": [
@@ -44,12 +46,14 @@ CONFIG = {
         "e_loc (structural location) is a ghost field of the model's entries; that the entry's path TEXT resolves to "
         "that location is checked on the real code by the judge (real Processor.get_nodes on each reported path), "
         "not proved",
-        "Python == on ruamel nodes is modelled by Diff.node_eq (OrderedDict order-sensitive equality, list equality, "
-        "abc.Set equality, TaggedScalar identity); NaN/inf, YAML merge keys, anchors/aliases with cycles, tuple keys "
-        "are outside the generators",
+        "Python == on ruamel nodes (key lookups, set membership, the fall-through of Differ._same_data) is modelled "
+        "by Diff.node_eq (dict equality, list equality, abc.Set equality, TaggedScalar identity); Differ._same_data "
+        "itself is Diff.val_eq, compared directly on the root pair and the facing children of every case; NaN/inf, "
+        "YAML merge keys, anchors/aliases with cycles, tuple keys are outside the generators",
     ],
     "assumptions": [
-        "documents are real loaded dicts/sets: unique untagged scalar keys and members (wf_doc)",
+        "documents are real loaded dicts/sets: unique untagged scalar keys and members, and a CommentedSet carries "
+        "no tag (wf_doc; the judge reports a set with a tag as a violation of this assumption)",
         "get_report is a permutation of Differ._diffs (sorting by loader line numbers is not modelled)",
         "invalid --arrays/--aoh/config mode names (NameError in from_str) are outside the compared domain",
     ],
@@ -118,6 +122,23 @@ def to_yaml(d):
 
 def load(text):
     return _E["Parsers"].get_yaml_editor().load(text)
+
+
+class Enc(docenc.Encoder):
+    """The shared encoder marks a ScalarBoolean (an anchored boolean) with the
+    YAML bool tag - a convention of the evaluator models.  The Differ asks
+    `hasattr(node, "tag")`, which a ScalarBoolean does not have: encode it as
+    the untagged int-valued leaf it is for ==."""
+
+    def info(self, x):
+        if type(x).__name__ == "ScalarBoolean":
+            anc = None
+            try:
+                anc = x.anchor.value
+            except Exception:  # noqa
+                anc = None
+            return "i%d %s true none" % (self.oid(x), "none" if anc is None else hexs(anc))
+        return docenc.Encoder.info(self, x)
 
 
 # --------------------------------------------------------------------------
@@ -361,6 +382,31 @@ FAMILY = {("position", "position"): "positional", ("position", "dpos"): "positio
           ("value", "value"): "value", ("position", "key"): "key", ("position", "deep"): "deep"}
 
 
+def same_data_verdict(lhs, rhs):
+    """Differ._same_data is data equality (same tag, same value) on every pair
+    (left sub-node, right sub-node); a loaded set carries no tag."""
+    sd = getattr(_E["Differ"], "_same_data", None)
+    if sd is None:
+        return None     # no such helper in this code: the entries themselves are judged (same / change / iff)
+    L, R = subnodes(lhs, []), subnodes(rhs, [])
+    for doc in (L, R):
+        for n in doc:
+            if kind(n) == "T" and tagval(n) is not None:
+                return ("assume", "a loaded set carries the tag %r" % tagval(n))
+    if len(L) * len(R) > 900:
+        L, R = L[:30], R[:30]
+    for a in L:
+        for b in R:
+            try:
+                got = sd(a, b)
+            except Exception as ex:  # noqa
+                return ("crash", "Differ._same_data raised %s on %r / %r" % (type(ex).__name__, a, b))
+            if bool(got) != deq(a, b):
+                return ("same" if got else "change",
+                        "Differ._same_data(%r, %r) is %r but the values are %s as data" % (a, b, got, "different" if got else "equal"))
+    return None
+
+
 def judge_run(lhs, rhs, arrays, aoh, has_rules, entries):
     """Returns None or (kind, text).  Kinds: crash, truth, same, change, cover, iff, account."""
     A = _E["DiffActions"]
@@ -462,7 +508,7 @@ def prepare(case):
         return res
     lhs = load(case["l"])
     rhs = lhs if case.get("same") else load(case["r"])
-    enc = docenc.Encoder()
+    enc = Enc()
     try:
         lt = enc.node(lhs)
         rt = enc.node(rhs)
@@ -496,6 +542,21 @@ def prepare(case):
         res["verdicts"].append(judge_run(lhs, rhs, arrays, aoh, has_rules, entries))
         if first_entries is None and not isinstance(entries, str):
             first_entries = (d, entries)
+    # Differ._same_data on the root pair and on the facing children
+    pairs = [(lhs, rhs)]
+    if kind(lhs) == "M" and kind(rhs) == "M":
+        pairs += [(lhs[k], rhs[k]) for k in lhs if k in rhs][:6]
+    elif kind(lhs) == "S" and kind(rhs) == "S":
+        pairs += list(zip(lhs, rhs))[:6]
+        pairs += [(a, b) for a in list(lhs)[:3] for b in list(rhs)[:3]]
+    for a, b in pairs:
+        res["req"].append("(valeq %s %s)" % (enc.node(a), enc.node(b)))
+        try:
+            sd = getattr(E["Differ"], "_same_data", None)
+            res["obs"].append("(missing)" if sd is None else _b(sd(a, b)))
+        except Exception as e:  # noqa
+            res["obs"].append(exc_line(e))
+    res["verdicts"].append(same_data_verdict(lhs, rhs))
     if kind(lhs) == "S" and kind(rhs) == "S":
         res["req"].append("(syncval %s %s)" % (lt, rt))
         try:
@@ -578,28 +639,6 @@ def _docs(case):
     return lhs, rhs
 
 
-def has_tags(case):
-    lhs, rhs = _docs(case)
-    for doc in (lhs, rhs):
-        for n in subnodes(doc, []):
-            if is_tagged(n) or (kind(n) != "L" and kind(n) != "T" and tagval(n)):
-                return True
-    return False
-
-
-def pyeq_disagrees(case):
-    """Python == differs from data equality on some pair (left sub-node, right sub-node)."""
-    lhs, rhs = _docs(case)
-    for a in subnodes(lhs, []):
-        for b in subnodes(rhs, []):
-            try:
-                if bool(a == b) != deq(a, b):
-                    return True
-            except Exception:  # noqa
-                return True
-    return False
-
-
 def plain_key(k):
     return (isinstance(k, str) and k != "" and k == k.strip() and not k.startswith(("/", "&", "!"))
             and not any(c in k for c in "*"))
@@ -616,14 +655,12 @@ def has_odd_key(case):
     return False
 
 
-def null_faces_container(case):
+def null_document_vs_container(case):
+    """What is left of finding F3: one DOCUMENT is null (Python None at the
+    root = no document) and the other a container that has content."""
     lhs, rhs = _docs(case)
-    L, R = subnodes(lhs, []), subnodes(rhs, [])
-
-    def hollow(x):
-        return x is None or (kind(x) != "L" and len(x) == 0)
-    for a, b in ((L, R), (R, L)):
-        if any(x is None for x in a) and any(kind(y) != "L" and not hollow(y) for y in b):
+    for a, b in ((lhs, rhs), (rhs, lhs)):
+        if a is None and kind(b) != "L" and len(b) > 0:
             return True
     return False
 
@@ -715,6 +752,9 @@ def site_trouble(site, cfg):
             for e in s:
                 if k not in e:
                     return True         # a record lacks an identity key in force
+                if kind(e[k]) != "L":
+                    return True         # an identity value is a container (the guard kguard asks for a scalar):
+                                        # records are matched by exact equality of that value
                 vals.append(e[k])
             for i in range(len(vals)):
                 for j in range(i + 1, len(vals)):
@@ -727,7 +767,8 @@ def aoh_identity_trouble(case):
     """In the failing run some sequence pair is compared in key / deep mode
     although a record lacks the identity key in force there (configured through
     [keys], or the first key of the first right-hand record), two records of
-    one list share an identity value, or an element is not a mapping."""
+    one list share an identity value, an identity value is not a scalar, or an
+    element is not a mapping."""
     combo = failing_combo(case)
     if combo is None:
         return False
@@ -747,8 +788,7 @@ def _kind_is(case, *kinds):
 
 FINDING_PREDS = {
     "odd_key_path": lambda case, obs: _kind_is(case, "truth", "cover") and has_odd_key(case),
-    "python_eq_is_not_data_eq": lambda case, obs: _kind_is(case, "same", "change", "iff", "account") and pyeq_disagrees(case),
-    "null_faces_container": lambda case, obs: _kind_is(case, "cover", "account") and null_faces_container(case),
+    "null_document_vs_container": lambda case, obs: _kind_is(case, "cover", "account") and null_document_vs_container(case),
     "aoh_identity_key": lambda case, obs: _kind_is(case, "iff") and aoh_identity_trouble(case),
 }
 
@@ -817,6 +857,8 @@ class Gen:
 
     def scalar(self):
         r = self.r
+        if self.mode == "tags" and r.random() < 0.2:
+            return ("x", r.choice(["t", "u"]), r.choice(["a", "b"]))
         c = r.random()
         if c < 0.18:
             return None
@@ -1017,9 +1059,17 @@ def corpus_chunks():
                  ("{a: {}}", "{a: []}"), ("{}", "[]"), ("{a: {}}", "{a: null}"), ("", "{}"),
                  ("a: !x b", "a: !x b"), ("[{a: 1, b: 2}]", "[{b: 2, a: 1}]"), ("a: null", "a: {b: 1}"),
                  ("[{a: 1}, {b: 2}]", "[{a: 1}, {b: 2}]"), ("[{id: 1, v: a}, {id: 1, v: b}]", "[{id: 1, v: b}, {id: 1, v: a}]"),
+                 ("[{w: [{v: 1}, {v: 2}]}]", "[{w: [{v: 2}, {v: 1}]}]"),
                  ("{'': 1}", "{'': 2}"), ("{'/x': 1}", "{'/x': 2}"), ("{1: a}", "{true: b}"), ("!a {x: 1}", "!b {x: 1}"),
                  ("[!a {x: 1}]", "[!b {x: 1}]"), ("[[1, 2]]", "[[2, 1]]"), ("[1, [2, 3]]", "[[2, 3], 1]"),
-                 ("!!set {a, b}", "!!set {b, c}"), ("x: !!set {a}", "x: [a]"), ("[1, 1]", "[1]"), ("2001-01-01", "2001-01-01")]:
+                 ("!!set {a, b}", "!!set {b, c}"), ("x: !!set {a}", "x: [a]"), ("[1, 1]", "[1]"), ("2001-01-01", "2001-01-01"),
+                 # finding F1, repaired: tags take part in the comparison of values
+                 ("a: !x b", "a: !y b"), ("a: !x b", "a: b"), ("!a [1]", "!b [1]"), ("!a [1]", "!a [1]"), ("x: !a [1]", "x: [1]"),
+                 ("[{x: !t 1}]", "[{x: !t 1}]"), ("[!t 1, 2]", "[2, !t 1]"), ("[!a {x: 1}]", "[!a {x: 1}]"),
+                 ("[{id: !t 1, v: a}, {id: !t 2, v: b}]", "[{id: !t 2, v: b}, {id: !t 1, v: a}]"),
+                 # finding F3, repaired below the root; the root case is what is left of it
+                 ("a: null", "a: [1]"), ("a: {b: 1}", "a: null"), ("[null]", "[[1]]"), ("a: null", "a: {}"),
+                 ("a: null", "a: !!set {x}"), ("[[1], null]", "[null, [1]]"), ("null", "{a: 1}"), ("{a: 1}", "null"), ("", "[1]")]:
         cases.append({"l": l, "r": r, "mode": "corpus"})
     cases.append({"l": "a: !x b", "r": "a: !x b", "same": True, "mode": "corpus"})
     for l, r, ini in CONFIG_CASES:
@@ -1045,7 +1095,7 @@ def chunks(tier, seed):
                     buf = []
     rng = random.Random(seed * 31 + 6)
     nrand = 60000 if tier == "thorough" else 6000
-    streams = ["clean"] * 6 + ["tags", "keyorder", "oddkeys", "aohtrouble"]
+    streams = ["clean"] * 5 + ["tags", "tags", "keyorder", "oddkeys", "aohtrouble"]
     for i in range(nrand):
         buf.append(random_case(rng, streams[i % len(streams)]))
         if len(buf) >= size:
